@@ -482,3 +482,95 @@ def known_probes(case, ctx):
     raise Violation("variable_axes={'params': -1}: the partition name is not "
                     'aligned with the stacked dimension',
                     key='C19:negative-stack-axis')
+
+
+# ----------------------------------------------------------------------------
+@clause('boxed_layer_params',
+        strategy=lambda: st.fixed_dictionaries({
+            'layer': st.sampled_from(['dense', 'general', 'general', 'embed']),
+            'shape': st.lists(st.integers(1, 3), min_size=2, max_size=4),
+            'features': st.lists(st.integers(1, 3), min_size=1, max_size=2),
+            'n_axis': st.integers(1, 2), 'batch_dims': st.booleans(),
+            'logical': st.booleans(), 'seed': st.integers(0, 2**16)}),
+        quick=200, thorough=6000, quick_shards=4, thorough_shards=16,
+        shrink=False,
+        rule='Dense / DenseGeneral (feature tuples, 1-2 contracted axes, '
+        'batch_dims) / Embed whose kernel, bias and embedding initialisers are '
+        'boxed with nn.with_partitioning or nn.with_logical_partitioning: '
+        'every box holds an array with one dimension per name, unboxing the '
+        'variables gives exactly the shapes and values of the same layer '
+        'with raw initialisers, get_partition_spec returns the names and the '
+        'outputs are equal; non-trivial = a feature tuple or batch_dims')
+def boxed_layer_params(case, ctx):
+  shape = tuple(case['shape'])
+  r = len(shape)
+  rng = np.random.default_rng(case['seed'])
+  box = nn.with_logical_partitioning if case['logical'] else \
+      nn.with_partitioning
+  L8 = ['a', 'b', 'c', 'd', 'e', 'f', 'g', 'h']
+  kinit, binit = nn.initializers.lecun_normal(), nn.initializers.ones
+  if case['layer'] == 'embed':
+    x = jnp.asarray(rng.integers(0, 4, size=shape[:2]))
+    mk = lambda boxed: nn.Embed(4, case['features'][0], embedding_init=(
+        box(nn.initializers.normal(1.0), ('vocab', 'emb')) if boxed
+        else nn.initializers.normal(1.0)))
+    nontrivial = False
+  elif case['layer'] == 'dense':
+    x = jnp.asarray(rng.normal(size=shape), jnp.float32)
+    mk = lambda boxed: nn.Dense(
+        case['features'][0],
+        kernel_init=box(kinit, ('in', 'out')) if boxed else kinit,
+        bias_init=box(binit, ('out',)) if boxed else binit)
+    nontrivial = False
+  else:
+    x = jnp.asarray(rng.normal(size=shape), jnp.float32)
+    nb = 1 if case['batch_dims'] and r >= 3 else 0
+    na = min(case['n_axis'], r - nb - 0)
+    na = max(1, min(na, r - nb))
+    axes = tuple(range(r - na, r))
+    feats = tuple(case['features'])
+    kn = tuple(L8[:nb + na + len(feats)])
+    bn = tuple(L8[:nb + len(feats)])
+    mk = lambda boxed: nn.DenseGeneral(
+        feats if len(feats) > 1 else feats[0], axis=axes,
+        batch_dims=tuple(range(nb)),
+        kernel_init=box(kinit, kn) if boxed else kinit,
+        bias_init=box(binit, bn) if boxed else binit)
+    nontrivial = len(feats) > 1 or nb > 0
+  key = jax.random.key(case['seed'])
+  with sut('init (raw initialisers)'):
+    Vr = unfreeze(mk(False).init(key, x))
+  with sut('init (boxed initialisers)'):
+    Vb = unfreeze(mk(True).init(key, x))
+  boxes = jax.tree_util.tree_leaves(
+      Vb, is_leaf=lambda z: isinstance(z, meta.AxisMetadata))
+  require(boxes and all(isinstance(b, nn.Partitioned) for b in boxes),
+          'boxed initialisers did not produce boxed variables')
+  for b in boxes:
+    require(len(b.names) == np.ndim(b.value), lambda: f'box with names '
+            f'{b.names} holds an array of shape {np.shape(b.value)}')
+  un = meta.unbox(Vb)
+  sa = jax.tree_util.tree_map(np.shape, Vr)
+  sb = jax.tree_util.tree_map(np.shape, un)
+  require(sa == sb, lambda: f'unboxed shapes {sb} differ from the raw '
+          f'layer\'s {sa}')
+  la, lb = jax.tree_util.tree_leaves(Vr), jax.tree_util.tree_leaves(un)
+  require(all(np.array_equal(np.asarray(a), np.asarray(b_))
+              for a, b_ in zip(la, lb)), 'boxed initialisation gives other '
+          'values than the raw one')
+  with sut('get_partition_spec'):
+    spec = nn.get_partition_spec(Vb)
+  sl = jax.tree_util.tree_leaves(spec, is_leaf=lambda z: isinstance(z, P))
+  require([tuple(s_) for s_ in sl] == [tuple(b.names) for b in boxes],
+          lambda: f'partition specs {sl} vs names '
+          f'{[b.names for b in boxes]}')
+  with sut('apply'):
+    yb = mk(True).apply(Vb, x)
+    yr = mk(False).apply(Vr, x)
+    yu = mk(False).apply(un, x)
+  require(np.allclose(np.asarray(yb), np.asarray(yr), rtol=1e-6, atol=1e-6)
+          and np.allclose(np.asarray(yu), np.asarray(yr), rtol=1e-6,
+                          atol=1e-6), 'boxed variables compute differently '
+          'from their raw arrays')
+  ctx.note(labels=[case['layer'], 'logical' if case['logical'] else
+                   'partitioned'], nontrivial=nontrivial)
